@@ -103,6 +103,9 @@ func noBreak(hdr *ssa.BasicBlock) (bool, string) {
 		if after[b] && ir.IsReturnJoin(b) {
 			continue // leaving the loop straight into `return result` is an early return
 		}
+		if after[b] && ir.IsThreadedJoin(b) {
+			continue // a side-effect free join whose outcome is decided by where control came from
+		}
 		if after[b] {
 			return false, fmt.Sprintf("the code after the loop is reachable from inside the body (break) via block %d", b.Index)
 		}
@@ -509,7 +512,7 @@ func isHasPredicate(c *Ctx, f *ssa.Function) bool {
 			var eqNext, eqMatcher bool
 			ir.Instrs(f, func(in ssa.Instruction) {
 				bo, isBo := in.(*ssa.BinOp)
-				if !isBo || bo.Op != token.EQL || !r.Holds(bo, true) {
+				if !isBo || !((bo.Op == token.EQL && r.Holds(bo, true)) || (bo.Op == token.NEQ && r.Holds(bo, false))) {
 					return
 				}
 				for _, fld := range []string{"Next", "Matcher"} {
@@ -1033,8 +1036,15 @@ func fsm3(c *Ctx) {
 		if !v {
 			if r.Join != nil && r.At == hdr2 && hdr2 != nil {
 				// single-exit form: the result stays false when the loop over the records is exhausted
-			} else if hdr2 == nil || len(r.Block().Preds) != 1 || r.Block().Preds[0] != hdr2 {
+			} else if hdr2 == nil {
 				okRet, why = false, fmt.Sprintf("return false at %s is not the exhaustion of the recorded matches", c.P.Pos(r.Pos()))
+			} else if len(r.Block().Preds) != 1 || r.Block().Preds[0] != hdr2 {
+				// reachable only through the exhaustion edge of the loop over the records
+				_, _, ex := loopBody(hdr2)
+				cut := map[ir.Edge]bool{{From: hdr2, To: ex}: true}
+				if ex == nil || r.ReachableUnder(ir.Reach(fn.Blocks[0], nil, cut), cut) {
+					okRet, why = false, fmt.Sprintf("return false at %s is not the exhaustion of the recorded matches", c.P.Pos(r.Pos()))
+				}
 			}
 		} else {
 			// success of a recursive call, or the terminal accept (FSM-7)
@@ -1252,8 +1262,13 @@ func fsm4(c *Ctx) {
 		if ld, isLd := cv.Call.Args[0].(*ssa.UnOp); !isLd || ld.X != ssa.Value(pcLocal) {
 			okMerge, why = false, "Merge is not applied to the caller's context"
 		}
-		if b, _, ok := ir.FieldLoad(cv.Call.Args[1]); !ok || b != recCtxBase {
+		if b, _, ok := ir.FieldLoad(cv.Call.Args[1]); !ok {
 			okMerge, why = false, "the merged context is not the successful branch's"
+		} else if b != recCtxBase {
+			// the winner kept in a result variable: the only value it can have here is that branch's record
+			if vs := ir.PhiValuesAt(b, cv.Block()); len(vs) != 1 || vs[0] != recCtxBase {
+				okMerge, why = false, "the merged context is not the successful branch's"
+			}
 		}
 	}
 	if nMerge != 1 {
@@ -1261,11 +1276,19 @@ func fsm4(c *Ctx) {
 	}
 	if okMerge && rec != nil {
 		// on the success edge Merge must be passed before returning
+		mergeBlocks := map[*ssa.BasicBlock]bool{}
+		for _, call := range ir.Calls(fn) {
+			if cv, ok := call.(*ssa.Call); ok && ir.Static(cv) == merge {
+				mergeBlocks[cv.Block()] = true
+			}
+		}
 		for _, e := range ir.EdgesWhere(fn, rec, true) {
-			passes := false
-			for _, in := range e.To.Instrs {
-				if cv, ok := in.(*ssa.Call); ok && ir.Static(cv) == merge {
-					passes = true
+			passes := true
+			if !mergeBlocks[e.To] {
+				for b := range ir.ReachVia(e.From, e.To, mergeBlocks, nil) {
+					if ir.IsReturn(b) {
+						passes = false
+					}
 				}
 			}
 			if !passes {
